@@ -6,6 +6,7 @@ import (
 	"encoding/json"
 	"flag"
 	"fmt"
+	"github.com/josephburnett/jd/v2/verif/simos"
 	"os"
 	"os/exec"
 	"path/filepath"
@@ -444,6 +445,17 @@ func checkMain(args []string) {
 		if f != nil {
 			found[f.V.Class()] = f
 		}
+		per := int64(2500)
+		if *tier == "thorough" {
+			per = 12000
+		}
+		f, soaked := soakSample(self, *seed, 16, per, *scratch)
+		total.Probes["history-compared-with-and-without-fresh-package-state-in-one-long-process"] += soaked
+		if f != nil {
+			if _, dup := found[f.V.Class()]; !dup {
+				found[f.V.Class()] = f
+			}
+		}
 	}
 	for _, f := range crashes {
 		if _, ok := found[f.V.Class()]; !ok {
@@ -867,7 +879,7 @@ func warmColdCheck(self string, raw json.RawMessage, dir string) (*Violation, []
 		infra("warm/cold check: %v", err)
 	}
 	cold := c
-	cold.WarmUp = nil
+	cold.WarmUp, cold.WarmRange = nil, nil
 	a, err1 := traceCase(self, cold, dir)
 	b, err2 := traceCase(self, c, dir)
 	if err1 != nil || err2 != nil {
@@ -885,7 +897,11 @@ func warmColdCheck(self string, raw json.RawMessage, dir string) (*Violation, []
 		if strings.HasPrefix(a[i], "construct") {
 			op = "Diff/Read"
 		}
-		v := viol15("across-processes", op, "the same call on identical values returns %s in a process that did nothing before, and %s in a process that ran %d other histories first", clip(a[i][ia+8:]), clip(b[i][ib+8:]), len(c.WarmUp))
+		nwarm := int64(len(c.WarmUp))
+		if c.WarmRange != nil {
+			nwarm += c.WarmRange.To - c.WarmRange.From
+		}
+		v := viol15("across-processes", op, "the same call on identical values returns %s in a process that did nothing before, and %s in a process that ran %d other histories first", clip(a[i][ia+8:]), clip(b[i][ib+8:]), nwarm)
 		v.Tag = "after-other-histories"
 		return v, []string{"cold process: " + a[i], "warm process: " + b[i]}
 	}
@@ -929,7 +945,25 @@ func warmColdSample(self string, seed uint64, n int64, scratch string) (*Found, 
 		}
 		c, v, log := r.c, r.v, r.log
 		class := v.Class()
-		for i := 0; i < len(c.WarmUp); {
+		for len(c.WarmUp) > 16 {
+			// long warm-ups: try to drop halves before single histories
+			half := len(c.WarmUp) / 2
+			shrunk := false
+			for _, keep := range [][]C15Case{c.WarmUp[half:], c.WarmUp[:half]} {
+				d := c
+				d.WarmUp = append([]C15Case(nil), keep...)
+				raw, _ := json.Marshal(d)
+				if v2, log2 := warmColdCheck(self, raw, scratch); v2 != nil && v2.Class() == class {
+					c, v, log = d, v2, log2
+					shrunk = true
+					break
+				}
+			}
+			if !shrunk {
+				break
+			}
+		}
+		for i := 0; i < len(c.WarmUp) && len(c.WarmUp) <= 64; {
 			d := c
 			d.WarmUp = append(append([]C15Case(nil), c.WarmUp[:i]...), c.WarmUp[i+1:]...)
 			raw, _ := json.Marshal(d)
@@ -962,4 +996,95 @@ func clip(s string) string {
 		return s[:500] + "..."
 	}
 	return s
+}
+
+// soak15Main runs the histories of runs From..To-1 twice in this process:
+// once the way the workers do (fresh package state before each), once without
+// ever resetting anything, and prints the first run whose calls return
+// something else the second time. A process that has lived long must answer
+// like one that was just started.
+func soak15Main(args []string) {
+	fs := flag.NewFlagSet("soak15", flag.ExitOnError)
+	seed := fs.Uint64("seed", 1, "seed")
+	from := fs.Int64("from", 0, "first run")
+	to := fs.Int64("to", 1000, "one past the last run")
+	fs.Parse(args)
+	digests := make([]uint64, *to-*from)
+	pass := func(noReset bool) int64 {
+		soakNoReset = noReset
+		simos.ResetGlobals()
+		for run := *from; run < *to; run++ {
+			c := genCase15(newChooser(runSeed(*seed, "C15", run)))
+			c.Reorder = 0
+			var lines []string
+			trace15 = &lines
+			func() {
+				defer func() { recover() }()
+				checkC15(c)
+			}()
+			trace15 = nil
+			d := strSeed(strings.Join(lines, "\n"))
+			if !noReset {
+				digests[run-*from] = d
+			} else if digests[run-*from] != d {
+				return run
+			}
+		}
+		return -1
+	}
+	pass(false)
+	if bad := pass(true); bad >= 0 {
+		fmt.Printf("SOAK-MISMATCH run=%d\n", bad)
+		return
+	}
+	fmt.Printf("SOAK-OK %d\n", *to-*from)
+}
+
+// soakSample runs soak15 over several stretches of runs in parallel and turns
+// the first confirmed mismatch into a finding.
+func soakSample(self string, seed uint64, procs int, per int64, scratch string) (*Found, int64) {
+	type res struct {
+		from, bad int64
+	}
+	out := make([]res, procs)
+	var wg sync.WaitGroup
+	for i := 0; i < procs; i++ {
+		wg.Add(1)
+		go func(i int) {
+			defer wg.Done()
+			from := int64(i) * per
+			out[i] = res{from, -1}
+			cmd := exec.Command(self, "soak15", "-seed", fmt.Sprint(seed), "-from", fmt.Sprint(from), "-to", fmt.Sprint(from+per))
+			cmd.Env = append(os.Environ(), "GOMAXPROCS=2", "GOMEMLIMIT=3GiB")
+			done := make(chan struct{})
+			var o []byte
+			go func() { o, _ = cmd.Output(); close(done) }()
+			select {
+			case <-done:
+			case <-time.After(600 * time.Second):
+				cmd.Process.Kill()
+				<-done
+				return
+			}
+			var bad int64
+			if _, err := fmt.Sscanf(strings.TrimSpace(string(o)), "SOAK-MISMATCH run=%d", &bad); err == nil {
+				out[i].bad = bad
+			}
+		}(i)
+	}
+	wg.Wait()
+	for _, r := range out {
+		if r.bad < 0 {
+			continue
+		}
+		c := genCase15(newChooser(runSeed(seed, "C15", r.bad)))
+		c.Reorder = 0
+		c.WarmRange = &WarmRange{Seed: seed, From: r.from, To: r.bad}
+		raw, _ := json.Marshal(c)
+		if v, log := warmColdCheck(self, raw, scratch); v != nil {
+			v.Detail += fmt.Sprintf(" (the histories of runs %d..%d of seed %d)", r.from, r.bad-1, seed)
+			return &Found{Run: r.bad, V: *v, Case: raw, Log: log, Count: 1}, int64(procs) * per
+		}
+	}
+	return nil, int64(procs) * per
 }
